@@ -7,6 +7,7 @@ import SspModel.Model.Bins
 import SspModel.Model.Sev
 import SspModel.Model.Esc
 import SspModel.Model.IFMR
+import SspModel.Model.Schedule
 /-!
 # Line-protocol driver: one op per line in, one line out. Doubles cross as 16-hex-digit bit patterns.
 Runs the *same* model terms the theorems are about, at the `Float` instance.
@@ -177,6 +178,10 @@ def step (ws : List String) : String :=
     let (dNs, dal, drem) := derivsEsc (normM == "M") (parseHex t) (parseHex tcc) (parseHex rate) (parseHex md)
       (starBins sf) (pairs rf)
     s!"{fl dNs} | {fl dal} | {pairsOut drem}"
+  | "grid" :: rest =>
+    let (tmsU, r1) := takeList rest
+    let (tout, _) := takeList r1
+    fl (integrationGrid tmsU tout)
   | ["mrem", d, mb, mt] => toHex (Mrem (parseHex d) (parseHex mb) (parseHex mt))
   | ["sigmoid", slope, scale, m] => toHex (sigmoidRet (parseHex slope) (parseHex scale) (parseHex m))
   | ["erf", x] => toHex (Scalar.erf (parseHex x))
